@@ -223,6 +223,38 @@ pub fn plan(prop: &str, tier: &str, seed: u64) -> Option<Plan> {
             p.extra_prefixes = vec!["c19_"];
             p.assumptions = vec!["page size 4096 (the only one on this machine)".into()];
         }
+        "C04" => {
+            p.eval_counter = "c04_cases";
+            p.min_eval = 5000;
+            p.min_distinct = 1000;
+            p.rule = "case = (sampled configuration: flavour x freelist x Vec/anon x layout x reserved x min segment size) x arena state (empty, half full, full, full with a multi-segment free list and live neighbours, after rewind; thorough: 4 GiB arenas with the cursor at / 40 bytes below a capacity next to u32::MAX) x call (alloc_bytes, alloc_bytes_owned, alloc_aligned_bytes::<T>(extra) for 7 layouts, alloc::<T>/alloc_owned::<T> for all 16 layouts) x size (boundary-dense around remaining(), capacity, segment sizes, 2^31, u32::MAX - allocated, u32::MAX - capacity, u32::MAX, plus random u32); each case runs on a freshly built arena in an isolated child, in an overflow-checked and an unchecked build; oracle: Err => error kind + (allocated, discarded, remaining, free list) unchanged; Ok => handle inside [data_offset, allocated) within capacity, capacity/alignment as requested, no overlap with live ranges, zero-filled for alloc_bytes, live bytes unchanged; panic / signal => violation attributed through the AT marker; distinct_nontrivial = distinct (configuration, state, call kind, size)".into();
+            let shards = if quick { 6 } else { 12 };
+            for variant in ["rel", "dbg"] {
+                for k in 0..shards {
+                    let mut j = Job::new(&format!("iso-c04-{}-{}", variant, k), &bin(variant), sv(&["iso-c04", "--seed", &seed.to_string(), "--cfgs", if quick { "18" } else { "240" }, "--shard", &k.to_string(), "--shards", &shards.to_string()]));
+                    j.timeout_s = if quick { 300 } else { 1800 };
+                    p.jobs.push(j);
+                }
+            }
+            if !quick {
+                let mut j = Job::new("iso-c04-huge", &bin("rel"), sv(&["iso-c04", "--seed", &seed.to_string(), "--huge"]));
+                j.timeout_s = 1500;
+                p.jobs.push(j);
+                if have("asan") {
+                    for k in 0..4 {
+                        let mut j = Job::new(&format!("iso-c04-asan-{}", k), &bin("asan"), sv(&["iso-c04", "--seed", &seed.to_string(), "--cfgs", "36", "--shard", &k.to_string(), "--shards", "4"]));
+                        j.env.push(("ASAN_OPTIONS".into(), "detect_leaks=0:halt_on_error=1:exitcode=67:allocator_may_return_null=1".into()));
+                        j.env.push(("VH_NO_WATCH".into(), "1".into()));
+                        j.report_codes = vec![67];
+                        j.timeout_s = 1800;
+                        p.jobs.push(j);
+                    }
+                }
+            }
+            p.required_nonzero = sv(&["c04_successes", "c04_unchanged_after_error_checks"]);
+            p.extra_prefixes = vec!["c04_"];
+            p.assumptions = vec!["read-only arenas are exercised by C09 and by the read-only sessions of E-SEQ (C05)".into(), "reads/writes outside the backing store are visible as signals, ASan reports (thorough) or corrupted neighbours".into()];
+        }
         _ => return None,
     }
     Some(p)
